@@ -31,7 +31,8 @@ CHECKS = {
         text="Lemma (proved for arbitrary rule lists and packets): when every removed rule has a rule above it that matches every packet it matches, the first matching "
              "rule of a packet is never removed, so every decision is unchanged. Its hypothesis is C03's proved soundness plus the contract of delete_shadow, which is "
              "checked natively (bounded) on all ACLs of <= 3/4 items over an 11-kind alphabet, flat / numbered / grouped: report == shading() before, subsequence, only "
-             "covered ACEs removed (decided by set algebra), remarks/order/numbers/grouping kept, second call returns {}.",
+             "covered ACEs removed (decided by set algebra), remarks/order/numbers/grouping kept (a block that remains keeps its own number, note and identifier), second "
+             "call returns {}; families with address groups, empty port sets, 256-network wildcards, TCP flags after a log keyword, three-operand neq.",
         note="delete_shadow's text-index algorithm itself is not proved (object-graph bookkeeping, copy()). " + TB),
     "C11": dict(
         level="other", design_ref="DESIGN.md 5/C11",
@@ -76,7 +77,8 @@ CHECKS = {
         text="Every fact of the statement is a finite obligation over the tables read from the current source with ast (not imported): each (name, number) equals the "
              "hand-transcribed standard, render->parse closure per table, every table name known to the dstport/option splitter, no collision with operators / address / "
              "log / option keywords, ip<=>0 per platform, rendering getters write no field; `_swap` (first name of a number wins; closure) is proved for arbitrary dicts. "
-             "The real Port / Protocol / PortName classes are additionally run over every (platform, version, protocol, name, number, switch).",
+             "The real Port / Protocol / PortName classes are additionally run over every (platform, version, protocol, name, number, switch), and every named number goes "
+             "through range_ports() on three platforms (the generated keyword is read back by the same platform as that number).",
         note="The standard itself is spec/ref_tables.py (hand transcribed). SwVersion.major assumed. " + TB),
     "C12": dict(
         level="other", design_ref="DESIGN.md 5/C12",
@@ -104,14 +106,15 @@ CHECKS = {
         text="Discharged: tcam_count == 1 + sum over ACEs of |src members| x |dst members| (1 for a plain address, empty group counts 1) for any nesting; Ace/Remark/AceGroup "
              "`<` is decided by the sequence numbers whenever they differ; lemma L15.sort (induction step: the ascending arrangement of distinct numbers is unique). "
              "Bounded (labelled): group/ungroup keep the multiset and, for distinct headings, the text; blocks move as units; resequence+shuffle+sort restores the order; "
-             "TCAM unchanged - on all item lists of <= 4/5 items over 9 kinds.",
+             "TCAM unchanged - on all item lists of <= 4/5 items over 9 kinds, flat, grouped, and built from objects with a top level that mixes plain entries and blocks.",
         note="Known finding: a repeated heading remark is dropped by group() (pinned by tests). Acl.group/_ungroup/Group methods not proved. " + TB),
     "C19": dict(
         level="other", design_ref="DESIGN.md 5/C19",
         technique="SMT lemma L19.replace + bounded contract checking of Ace/AceGroup/Acl.ungroup_ports with the independent reader",
         text="Lemma (proved): replacing a rule by adjacent same-action rules whose match sets have the rule's set as union keeps every first-match decision. Bounded "
              "(labelled): ungroup_ports on 11 x 11 port expressions x 2 option sets: one port per side, other fields kept, union of the pieces' packet sets == original, "
-             "no needless split; pieces stand where the original stood at every position, flat and grouped.",
+             "no needless split; pieces stand where the original stood at every position, flat and grouped; pieces carry group members / note / switches, also on a second "
+             "split after those were changed.",
         note="Known finding: multi-operand neq is split into pieces whose union is all ports (pinned by tests). ungroup_ports is object-graph code (copy(), setters): not proved. " + TB),
     "C02": dict(
         level="other", design_ref="DESIGN.md 5/C02",
